@@ -1,6 +1,49 @@
-(* Props/Properties_C16.v - statements only; see DESIGN.md section 8 C16. *)
-From Adm Require Import Heap.Exec Heap.More gen.PlansGen Heap.PlanChecks.
+(* Props/Properties_C16.v - C16: updateBlockFormatDurations makes block timelines contiguous or changes nothing.
+   Statements only; proofs in Heap/Durations.v.  The model ([fix_durations], [fix_blocks], rational time arithmetic in
+   Heap/More.v) is hand-written after src/utilities/block_duration_assignment.cpp and tied to libadm by the
+   differential run (structured scenes; the expected outcome is recomputed with exact fractions by the oracle).
+   Proved for all inputs: the block-level rewrite (A), exact contiguity for decimal times (B), and that every failure
+   of the duration computation leaves the state unchanged (C).  Partial (suffix _partial): contiguity as an equation
+   between rational numbers for fractional times rests on the correctness of the normalising arithmetic
+   (rnorm / gcd), which is compared with libadm only by the differential run. *)
+From Adm Require Import Heap.Exec Heap.More Heap.Frame Heap.Durations.
+Local Open Scope Z_scope.
 
-Theorem C16_plans_recognised : plans_problems = [] /\ add_plan_complete gen_plans = true /\ plans_typed gen_plans = true.
-Proof. exact (conj plans_recognised (conj gen_add_plan_complete gen_plans_typed)). Qed.
-Print Assumptions C16_plans_recognised.
+(* (A) same blocks, same IDs, rtimes and payloads; each duration is the difference to the next rtime (the last one:
+   to the total), or the old duration when it equals that difference as a normalised fraction *)
+Theorem C16_blocks_rewritten_partial : forall l total,
+  Forall2 (fun p w => dur_ok (fst p) (snd p) w) (combine l (fix_blocks l total)) (wanted l total)
+  /\ length (fix_blocks l total) = length l.
+Proof. exact fix_blocks_spec. Qed.
+Print Assumptions C16_blocks_rewritten_partial.
+
+Theorem C16_equal_duration_keeps_representation : forall b w old, bdur b = Some old -> times_equal old w = true ->
+  set_dur_if_not_equal b w = b.
+Proof. exact equal_duration_kept. Qed.
+Print Assumptions C16_equal_duration_keeps_representation.
+
+(* (B) decimal times: each block's rtime plus duration is the next block's rtime, the last block ends at the total *)
+Theorem C16_contiguous_decimal : forall l total, Forall ns_block l -> contiguous (fix_blocks l (ZNs total)) total.
+Proof. exact fix_blocks_contiguous_ns. Qed.
+Print Assumptions C16_contiguous_decimal.
+
+Theorem C16_decimal_times_equal_exact : forall a b, times_equal (ZNs a) (ZNs b) = true <-> a = b.
+Proof. exact times_equal_ns. Qed.
+Print Assumptions C16_decimal_times_equal_exact.
+
+(* (C) ambiguity, contradiction with the file length, or nothing to derive a length from: nothing is changed *)
+Theorem C16_failure_changes_nothing : forall d len s x e, get_doc s d = Some x -> dur_phase1 s x len = inr e ->
+  exists e', fix_durations d len s = (s, inr e').
+Proof. exact phase1_failure_changes_nothing. Qed.
+Print Assumptions C16_failure_changes_nothing.
+
+Theorem C16_no_programme_no_length : forall d s x, get_doc s d = Some x -> members x KProg = [] ->
+  fix_durations d None s = (s, inr OtherExn).
+Proof. exact no_programme_no_length_changes_nothing. Qed.
+Print Assumptions C16_no_programme_no_length.
+
+Example C16_three_blocks :
+  let b r d := mkBlock (mkId 3 4097 0) r d 0 in
+  map bdur (fix_blocks [b None None; b (Some (ZNs 1000)) (Some (ZNs 5)); b (Some (ZNs 2500)) (Some (ZNs 500))] (ZNs 3000))
+  = [Some (ZNs 1000); Some (ZNs 1500); Some (ZNs 500)].
+Proof. vm_compute. reflexivity. Qed.
